@@ -141,7 +141,33 @@ func extractGrpcBroker(p *pkgs, f *facts) {
 	if tokCapC != tokCapS {
 		tokCap = -1
 	}
-	f.lean = append(f.lean, fmt.Sprintf("def grpcMux : GrpcMux.Params := ⟨%s, %d, true⟩", leanBool(registerFirst), max64(tokCap, 0)))
+	// GRPCServerMuxer.Accept: the hand-off `acceptCh <- acceptResult{…}` is a plain send statement (not a select arm)
+	handoffBlocks := false
+	if acc := p.fn("GRPCServerMuxer", "Accept"); acc != nil {
+		plain, inSelect := 0, 0
+		ast.Inspect(acc.Body, func(n ast.Node) bool {
+			switch x := n.(type) {
+			case *ast.SelectStmt:
+				for _, c := range x.Body.List {
+					if cc := c.(*ast.CommClause); cc.Comm != nil {
+						if ss, ok := cc.Comm.(*ast.SendStmt); ok && exprString(ss.Chan) == "acceptCh" {
+							inSelect++
+						}
+					}
+				}
+			case *ast.SendStmt:
+				if exprString(x.Chan) == "acceptCh" {
+					plain++
+				}
+			}
+			return true
+		})
+		// a send inside a select arm is visited twice (as the arm and as a SendStmt): discount
+		handoffBlocks = plain-inSelect == 1 && inSelect == 0
+	} else {
+		f.miss = append(f.miss, "GRPCServerMuxer.Accept")
+	}
+	f.lean = append(f.lean, fmt.Sprintf("def grpcMux : GrpcMux.Params := ⟨%s, %d, true, %s⟩", leanBool(registerFirst), max64(tokCap, 0), leanBool(handoffBlocks)))
 	f.set("grpcMux", map[string]interface{}{"registerFirst": registerFirst, "knockChCap": tokCapS, "waitChCap": tokCapC})
 }
 
